@@ -490,6 +490,23 @@ def stage_chunk(args):
                     if err:
                         bad('simplify_clause/replay', spec, err)
                 continue
+            if spec[0] == 'mtf':
+                # the documented contract of *_move_to_front: op-list <-> (selected terms, in order) followed by the others
+                _, opname, nterms, pos = spec
+                terms = [P.MetaVar(i) for i in range(nterms)]
+                op = P._or if opname == 'or' else P._and
+                pf = (taut.or_move_to_front if opname == 'or' else taut.and_move_to_front)(list(pos), list(terms))
+                out['stage_evals'] += 1
+                moved = [terms[i] for i in pos] + [t for i, t in enumerate(terms) if i not in pos]
+                wantc = bridge.expand(P.equiv(TT.foldr_op(op, terms), TT.foldr_op(op, moved)))
+                if bridge.expand(pf.conc) != wantc:
+                    bad(opname + '_move_to_front', spec, f'proof concludes {pf.conc}')
+                elif do_replay and nterms <= 4:
+                    err = replay_thunk(taut, pf, pf.conc, False)
+                    out['replayed'] += 1
+                    if err:
+                        bad(opname + '_move_to_front/replay', spec, err)
+                continue
             if spec[0] == 'dups':
                 _, k, rest = spec
                 terms = [P.MetaVar(0)] * (k + 1) + [P.MetaVar(i) if i >= 0 else P.neg(P.MetaVar(-i)) for i in rest]
@@ -557,6 +574,11 @@ def direct_specs(thorough: bool):
     for k in range(0, 6 if thorough else 5):
         for rest in ((), (1,), (1, 2), (-1,), (-1, 1, 2), (0,), (0, 0), (0, 1)):
             specs.append(('dups', k, rest))
+    for opname in ('or', 'and'):
+        for nterms in range(2, (8 if thorough else 6)):
+            for r in range(1, nterms + 1):
+                for pos in itertools.combinations(range(nterms), r):
+                    specs.append(('mtf', opname, nterms, pos))
     return specs
 
 
